@@ -219,7 +219,11 @@ def gen_arb(rng, shape=None):
     coords = []
     for v in verts:
         coords += [float(x) for x in v]
-    coords += [0.0] * (24 - len(coords))
+    if rng.random() < 0.5:
+        # unused vertex slots need not be zero: nothing may depend on them
+        coords += [rng.choice(COORDS) for _ in range(24 - len(coords))]
+    else:
+        coords += [0.0] * (24 - len(coords))
     return coords + [float(d) for d in descr]
 
 
